@@ -121,6 +121,7 @@ type Engine struct {
 	lockOps bool
 	sortSrc string
 	skippedPanics int
+	matBack map[string]*Loc
 }
 
 func (e *Engine) note(f string, a ...any) {
